@@ -223,6 +223,9 @@ def viewText (v : View) : String :=
 def resultText : Mdl.R MDL → String
   | .ok m => viewText m.view
   | .error .fail => "none"
-  | .error .panic => "panic"
+  -- every site where the pinned `MDL::from_existing` panicked (the model's `.panic`) returns
+  -- `None` since the C18-50..59 `fix:` commits (`c18_mdl_total`); such inputs are outside C06's
+  -- quantifier, the answer is kept only so that the case grammar stays total
+  | .error .panic => "none"
 
 end Physis.Driver.C06Case
